@@ -361,6 +361,16 @@ func h2Scenario1(seed int64, idx int, dir string, acts []h2Act, ca *harnessCA, c
 					sc.problem(fmt.Sprintf("C10:goaway: GOAWAY relayed as last-stream %d code %v debug %q", f.LastStreamID, f.ErrCode, f.DebugData()))
 				}
 				sc.log("b_goaway")
+			case *http2.SettingsFrame:
+				// the sender's SETTINGS frames reach the receiver, which acknowledges them; so do acknowledgements
+				if f.IsAck() {
+					sc.log("b_ack")
+				} else {
+					sc.log("b_settings")
+					B.wmu.Lock()
+					B.fr.WriteSettingsAck()
+					B.wmu.Unlock()
+				}
 			}
 		}
 	}()
@@ -398,7 +408,11 @@ func h2Scenario1(seed int64, idx int, dir string, acts []h2Act, ca *harnessCA, c
 				amu.Unlock()
 				sc.log("a_credit", "s", int(f.StreamID), "n", int(f.Increment))
 			case *http2.SettingsFrame:
+				if f.IsAck() {
+					sc.log("a_ack")
+				}
 				if !f.IsAck() {
+					sc.log("a_settings")
 					if v, ok := f.Value(http2.SettingMaxFrameSize); ok {
 						aMaxFrame.Store(int64(v)) // the frame size A has been told it may use from now on
 					}
@@ -546,6 +560,12 @@ func h2Scenario1(seed int64, idx int, dir string, acts []h2Act, ca *harnessCA, c
 			A.wmu.Lock()
 			err = A.fr.WritePing(false, [8]byte{byte(a.N), 'p', 'i', 'n', 'g', 0, 0, 7})
 			A.wmu.Unlock()
+		case "settings":
+			// a SETTINGS frame without parameters: all defaults
+			sc.log("a_settings_sent")
+			A.wmu.Lock()
+			err = A.fr.WriteSettings()
+			A.wmu.Unlock()
 		case "unknown":
 			// an extension frame (ALTSVC, type 0xa) on stream 0
 			sc.log("a_unknown")
@@ -598,6 +618,11 @@ func h2Scenario1(seed int64, idx int, dir string, acts []h2Act, ca *harnessCA, c
 				sc.log("b_ctl", "t", "SI", "s", 0, "v", int(a.V))
 				B.wmu.Lock()
 				err = B.fr.WriteSettings(http2.Setting{ID: http2.SettingInitialWindowSize, Val: a.V})
+				B.wmu.Unlock()
+			case "SE":
+				sc.log("b_ctl", "t", "SE", "s", 0, "v", 0)
+				B.wmu.Lock()
+				err = B.fr.WriteSettings()
 				B.wmu.Unlock()
 			case "SM":
 				sc.silence(80*time.Millisecond, time.Second)
